@@ -16,6 +16,7 @@ broadcast use vp_std::group_std_gaps, compact_encoding::lemma_enc_uint_len, ed25
 //@include shim/node_types.rs
 //@include shim/errors.rs
 //@include shim/hash.rs
+//@include frag/keypair.rs
 //@include shim/blake2.rs
 //@include shim/node_trait.rs
 //@include frag/hash.rs
